@@ -244,7 +244,7 @@ def c03(run):
 
 
 def c04(run):
-    return check(run, "C04", {"C04"}, [("mutants", TYPE_PARTS), ("frames", TYPE_PARTS), ("own", ONE_PART)],
+    return check(run, "C04", {"C04"}, [("mutants", TYPE_PARTS), ("frames", TYPE_PARTS), ("own", ONE_PART), ("render", ONE_PART)],
                  "mutants of every base packet (interior cuts, undefined identifiers, bad booleans, every prefix, five-byte "
                  "lengths), all valid frames, and bodies given directly to UnmarshalBinary of all 16 types; a Panic event or a "
                  "result that is not exactly (packet, nil) or (nil, error) is a violation",
@@ -328,7 +328,7 @@ def c10(run):
 
 
 def c11(run):
-    return check(run, "C11", {"C11"}, [("build", TYPE_PARTS)],
+    return check(run, "C11", {"C11"}, [("build", TYPE_PARTS), ("own", ONE_PART)],
                  BUILD_RULE + "every WriteTo of an unchanged model state must give the bytes of the first one (8 repeats in a "
                  "row plus writes before and after String/Dump/WellFormed), and the accessor record must be unchanged by "
                  "every read-only operation; a third of the programs is executed again in two other worker processes (fresh hash seeds) "
